@@ -2,6 +2,6 @@ SPECIFICATION Spec
 CONSTANTS
   MaxErrs = 3
   Faulty <- MCFalse
-  StrictSink <- MCFalse
-INVARIANTS DriverContract Progress Bounded Emit
+  StrictSink <- MCTrue
+INVARIANTS DriverContract Progress Bounded
 CHECK_DEADLOCK FALSE
